@@ -11,36 +11,13 @@
 (* check(fix=True) must leave.  Properties: ReportComplete, PlainCheckPure,*)
 (* FixConverges (second report empty), FixPreservesUndamaged.              *)
 (***************************************************************************)
-EXTENDS Integers, Sequences, FiniteSets, TLC, Json, IOUtils, TLCExt, FiniteSetsExt, SequencesExt
+EXTENDS CheckOps, Json, IOUtils, TLCExt
 CONSTANT Dev
 tr_Dev == {"D_fix_keeps_corrupt_pickle"}
 Doc == JsonDeserialize(IOEnv.TRACE_FILE)
 Traces == Doc.traces
 NT == Len(Traces)
 VARIABLES tid, done
-
-SetOf(s) == {s[i] : i \in DOMAIN s}
-FileIds(O) == {f[1] : f \in SetOf(O.files)}
-SizeOfFile(O, fid) == (CHOOSE f \in SetOf(O.files) : f[1] = fid)[2]
-Refs(O) == {r[2] : r \in {x \in SetOf(O.rows) : x[2] >= 0}}
-
-Missing(O) == {r \in SetOf(O.rows) : r[2] >= 0 /\ r[2] \notin FileIds(O)}
-WrongSize(O) == {r \in SetOf(O.rows) : r[2] >= 0 /\ r[2] \in FileIds(O) /\ SizeOfFile(O, r[2]) # r[3]}
-Unknown(O) == {f \in SetOf(O.files) : f[1] \notin Refs(O)}
-EmptyDirs(O) == {d \in SetOf(O.dirs) : d[1] # 0 /\ d[3] = 0 /\ d[4] = 0}
-SumSizes(O) == FoldSeq(LAMBDA r, acc : acc + r[3], 0, O.rows)
-
-\* <<category, target>>
-Report(O) ==
-    {<<"file-not-found", r[2]>> : r \in Missing(O)} \cup {<<"wrong-size", r[2]>> : r \in WrongSize(O)}
-    \cup {<<"unknown-file", f[1]>> : f \in Unknown(O)} \cup {<<"empty-dir", d[1]>> : d \in EmptyDirs(O)}
-    \cup (IF O.ctr[1] # Len(O.rows) THEN {<<"count", 0>>} ELSE {})
-    \cup (IF O.ctr[2] # SumSizes(O) THEN {<<"size", 0>>} ELSE {})
-
-\* rows that survive a repair, with their repaired sizes (keys keep their order)
-FixedRows(O) == LET keep == SelectSeq(O.rows, LAMBDA r : r \notin Missing(O))
-                IN [i \in DOMAIN keep |-> IF keep[i][2] >= 0 THEN <<keep[i][1], keep[i][2], SizeOfFile(O, keep[i][2]), keep[i][4]>> ELSE keep[i]]
-FixedFiles(O) == {f \in SetOf(O.files) : f[1] \in Refs(O)}
 
 RowsOf(O) == O.rows
 Judge(t) ==
